@@ -55,16 +55,16 @@ def get_level(level):
     return getattr(logging, level.upper())
 
 
-def configure_logging(level_name):
+def configure_logging(level_name, handler=None):
     fmt = LOGGING_FORMATS[level_name]
 
-    handler = logging.StreamHandler()
-    handler.setFormatter(ColorFormatter(fmt=fmt))
-
     root = logging.getLogger()
-    root.addHandler(handler)
+    if handler is None:
+        handler = logging.StreamHandler()
+        root.addHandler(handler)
+    handler.setFormatter(ColorFormatter(fmt=fmt))
     root.setLevel(get_level(level_name))
-    return root
+    return handler
 
 
 def init(project_dir):
@@ -125,7 +125,7 @@ def init(project_dir):
     "-v",
     "--verbose",
     type=click.Choice(["warning", "debug", "info", "error"]),
-    default="info",
+    default=None,
     help="Verbosity level.",
 )
 @click.option(
@@ -141,7 +141,7 @@ def main(ctx, file, backend, verbose, no_color):
 
     Shows help for the status command.
     """
-    configure_logging(level_name=verbose)
+    log_handler = configure_logging(level_name=verbose or "info")
 
     try:
         path, obj_name = find_workflow(file)
@@ -160,6 +160,11 @@ def main(ctx, file, backend, verbose, no_color):
     working_dir.joinpath(".gwf", "logs").mkdir(exist_ok=True)
 
     config = FileConfig.load(working_dir.joinpath(".gwfconf.json"))
+
+    # If the --verbose argument is not set, get the level from the
+    # configuration file.
+    if verbose is None and config.get("verbose") in LOGGING_FORMATS:
+        configure_logging(level_name=config["verbose"], handler=log_handler)
 
     # If the --use-color/--no-color argument is not set, get a value from the
     # configuration file. If nothing has been configured, check if the NO_COLOR
